@@ -1,7 +1,7 @@
 (* C03 — boolean comparison of the model with observations of the implementation (used by K only). *)
 From Coq Require Import List ZArith Bool String.
 Import ListNotations.
-From AgileV Require Import C03.Model C03.ModelCnn.
+From AgileV Require Import C03.Model C03.ModelCnn C03.ModelNet.
 Local Open Scope Z_scope.
 
 Fixpoint list_eqb {T} (eqb : T -> T -> bool) (a b : list T) : bool :=
@@ -89,3 +89,41 @@ Fixpoint check_cnn_steps (st : cnn_static) (c : cnn_cfg) (s : cnn_state)
   end.
 Definition check_cnn (st : cnn_static) (c : cnn_cfg) (a0 : cnn_arch) (sh0 : option (list pshape)) steps : bool :=
   opt_shapes_ok sh0 (cnn_shapes st a0) && check_cnn_steps st c (cnn_build st a0) steps.
+
+(* ---- networks (clone-and-mutate steps) *)
+Definition sarch_eqb (a b : sarch) : bool := (s_layers a =? s_layers b) && (s_width a =? s_width b).
+Definition cnn_arch_eqb (a b : cnn_arch) : bool :=
+  zl_eqb (channels a) (channels b) && zl_eqb (kernels a) (kernels b) && zl_eqb (strides a) (strides b).
+Definition enc_eqb (a b : enc_arch) : bool :=
+  match a, b with
+  | EMlp x, EMlp y => zl_eqb x y
+  | ECnn x, ECnn y => cnn_arch_eqb x y
+  | ESimba x, ESimba y => sarch_eqb x y
+  | ELstm x, ELstm y => sarch_eqb x y
+  | _, _ => false
+  end.
+Definition net_arch_eqb (a b : net_arch) : bool :=
+  (n_latent a =? n_latent b) && enc_eqb (n_enc a) (n_enc b) && zl_eqb (n_head a) (n_head b).
+Fixpoint check_net_steps (s : net_static) (c : net_cfg) (st : net_state)
+         (steps : list (net_meth * Z * Z * obs net_arch)) : bool :=
+  match steps with
+  | [] => true
+  | (m, r1, r2, (d, nm, rt, sh, rb)) :: tl =>
+      let '(st', nm', rt') := net_mutate s c st m r1 r2 in
+      net_arch_eqb d (net_arch_of st') && String.eqb nm nm' && zl_eqb rt rt'
+      && opt_shapes_ok sh (net_built st')
+      && rebuilt_ok rb (net_built st') (Some (net_shapes s (net_arch_of st')))
+      && check_net_steps s c st' tl
+  end.
+Definition check_net (s : net_static) (c : net_cfg) (a0 : net_arch) (sh0 : option (list pshape)) steps : bool :=
+  opt_shapes_ok sh0 (net_shapes s a0) && check_net_steps s c (net_build s a0) steps.
+
+(* ---- completion of a (partial) encoder configuration and its image under init_dict *)
+Definition ostr_eqb (a b : option string) : bool :=
+  match a, b with Some x, Some y => String.eqb x y | None, None => true | _, _ => false end.
+Definition full_eqb (a b : enc_full_cfg) : bool :=
+  String.eqb (f_activation a) (f_activation b) && ostr_eqb (f_output_activation a) (f_output_activation b)
+  && Bool.eqb (f_layer_norm a) (f_layer_norm b) && Bool.eqb (f_output_layernorm a) (f_output_layernorm b)
+  && Bool.eqb (f_output_vanish a) (f_output_vanish b).
+Definition check_cfg (u : enc_user_cfg) (built rebuilt : enc_full_cfg) : bool :=
+  full_eqb (complete_cfg true u) built && full_eqb (complete_cfg true (ctor_cfg (complete_cfg true u))) rebuilt.
